@@ -112,6 +112,9 @@ func c19DocCheck(enc []byte, doc *structpb.Struct) (res string) {
 		}
 	}()
 	voff := sql.EncLenLen + sql.EncIDLen
+	if len(enc) < voff {
+		return "out-of-range" // since the repair of finding 10: ErrInvalidProof (was: slice bounds panic)
+	}
 	_, n, err := sql.DecodeValue(enc[voff:], sql.BLOBType)
 	if err != nil {
 		return "undecodable"
@@ -120,6 +123,9 @@ func c19DocCheck(enc []byte, doc *structpb.Struct) (res string) {
 		return "differs"
 	}
 	voff += n + sql.EncIDLen
+	if len(enc) < voff {
+		return "out-of-range"
+	}
 	v, _, err := sql.DecodeValue(enc[voff:], sql.BLOBType)
 	if err != nil {
 		return "undecodable"
